@@ -49,6 +49,7 @@ type Ctx struct {
 	interior      map[string]Loc
 	wfCache       map[string]*Term
 	pendingWF     []*tableSpec
+	itPosFn       map[string]string // iterator object -> its position function (key -> index), see itIndexOfKey
 	defOf         map[string]*Term
 
 	fnName string
